@@ -176,11 +176,18 @@ func runR07_9(c *Ctx, r *R) {
 			// a call through an interface of the package (internalChannel.receive): every method of that name
 			if call.Common().IsInvoke() {
 				if m := call.Common().Method; m.Pkg() != nil && m.Pkg().Path() == pkgPath("mpx") {
+					iface, _ := call.Common().Value.Type().Underlying().(*types.Interface)
 					for _, h := range funcs {
-						if h.Parent() == nil && h.Signature.Recv() != nil && h.Name() == m.Name() {
-							callees[root] = append(callees[root], h)
-							callers[h] = append(callers[h], root)
+						if h.Parent() != nil || h.Signature.Recv() == nil || h.Name() != m.Name() || iface == nil {
+							continue
 						}
+						// only methods of types that implement the interface (channel.send is not internalConn.send)
+						rt := h.Signature.Recv().Type()
+						if !types.Implements(rt, iface) && !types.Implements(types.NewPointer(rt), iface) {
+							continue
+						}
+						callees[root] = append(callees[root], h)
+						callers[h] = append(callers[h], root)
 					}
 				}
 			}
